@@ -355,6 +355,11 @@ func runProgram(t *rapid.T, focus string) {
 						}
 					}
 				}
+				c.wire.mu.Lock()
+				if len(c.wire.newTermHold) > 0 {
+					ok = false
+				}
+				c.wire.mu.Unlock()
 				if !ok {
 					evid.Excluded("C01", kfSwapBehind)
 					continue
@@ -1036,11 +1041,56 @@ func ensembleFromDetail(d string) map[string]bool {
 	return out
 }
 
-// matchesSwapSignature: the listed finding -- an election with removed nodes fenced a removed node whose head
-// covers the lost write and installed a leader whose head does not.
+// matchesSwapSignature: the listed finding -- some election whose stored metadata carried removed nodes fenced a
+// removed node whose reported head covers the lost write, and installed a leader whose reported head does not.
 func (s *caseState) matchesSwapSignature(events []Event, op *ClientOp) bool {
+	s.c.wire.mu.Lock()
+	pos := s.c.wire.tagPos[op.Tag]
+	s.c.wire.mu.Unlock()
+	if pos == nil {
+		return false
+	}
+	covers := func(h *proto.EntryId) bool {
+		return h != nil && (h.Term > pos.Term || (h.Term == pos.Term && h.Offset >= pos.Offset))
+	}
+	removedAt := map[int64]map[string]bool{} // term -> removed nodes stored with it
 	for _, e := range events {
-		if e.Kind == "meta.store" && strings.Contains(e.Detail, "removed=[n") {
+		if e.Kind == "meta.store" {
+			i := strings.Index(e.Detail, "removed=[")
+			if i < 0 {
+				continue
+			}
+			rest := e.Detail[i+len("removed=["):]
+			if j := strings.Index(rest, "]"); j > 0 {
+				if removedAt[e.Term] == nil {
+					removedAt[e.Term] = map[string]bool{}
+				}
+				for _, n := range strings.Fields(rest[:j]) {
+					removedAt[e.Term][n] = true
+				}
+			}
+		}
+	}
+	heads := map[int64]map[string]*proto.EntryId{}
+	for _, e := range events {
+		if e.Kind == "newterm.answered" {
+			if heads[e.Term] == nil {
+				heads[e.Term] = map[string]*proto.EntryId{}
+			}
+			heads[e.Term][e.From] = e.Head
+		}
+	}
+	for _, e := range events {
+		if e.Kind != "becomeleader.ok" || len(removedAt[e.Term]) == 0 {
+			continue
+		}
+		removedCovers := false
+		for n := range removedAt[e.Term] {
+			if covers(heads[e.Term][n]) {
+				removedCovers = true
+			}
+		}
+		if removedCovers && !covers(heads[e.Term][e.From]) {
 			return true
 		}
 	}
@@ -1054,3 +1104,81 @@ func TestC04_Cluster(t *testing.T) { rapid.Check(t, func(t *rapid.T) { runProgra
 func TestC05_Cluster(t *testing.T) { rapid.Check(t, func(t *rapid.T) { runProgram(t, "C05") }) }
 
 var _ = model.ShardStatusSteadyState
+
+
+// TestKF_C01 re-confirms the listed finding with a scripted schedule (no generator).
+func TestKF_C01(t *testing.T) {
+	if !evid.Known(kfSwapBehind) {
+		return
+	}
+	for attempt := 0; attempt < 3; attempt++ {
+		if kfSwapOnce(t) {
+			return
+		}
+	}
+}
+
+func kfSwapOnce(t *testing.T) bool {
+	dir, err := os.MkdirTemp(tmpRoot, "kf01-")
+	if err != nil {
+		t.Fatalf("mkdtemp: %v", err)
+	}
+	defer os.RemoveAll(dir)
+	c, err := newCluster(dir, 4, 3, 64*1024)
+	if err != nil {
+		t.Fatalf("cluster: %v", err)
+	}
+	defer c.close()
+	leader, ok := c.waitLeader(10 * time.Second)
+	if !ok {
+		return false
+	}
+	var f1, f2 string
+	for _, n := range c.order[:3] {
+		if n != leader {
+			if f1 == "" {
+				f1 = n
+			} else {
+				f2 = n
+			}
+		}
+	}
+	spare := c.order[3]
+	// f2 lags: it cannot hear the leader
+	c.wire.setLink(leader, f2, false)
+	op := &ClientOp{ID: 1, Node: leader, Tag: "kfw", Write: &proto.WriteRequest{Puts: []*proto.PutRequest{{Key: "a", Value: []byte("2")}, {Key: "m/kfw", Value: []byte("kfw")}}}}
+	c.doWrite(op, 3*time.Second)
+	if op.Outcome != OutcomeOK {
+		return false
+	}
+	// f1 (which has the write) answers the next NewTerm late; the old leader is swapped out
+	hold := make(chan struct{})
+	c.wire.mu.Lock()
+	c.wire.newTermHold[f1] = hold
+	c.wire.mu.Unlock()
+	done := make(chan error, 1)
+	go func() { done <- c.controller().SwapNode(c.nodes[leader].server(), c.nodes[spare].server()) }()
+	select {
+	case <-done:
+	case <-time.After(5 * time.Second):
+	}
+	close(hold)
+	nl, ok := c.waitLeader(5 * time.Second)
+	if !ok {
+		return false
+	}
+	es, okLog := c.nodes[nl].walEntries()
+	if !okLog {
+		return false
+	}
+	for _, e := range es {
+		for _, tag := range entryTagsOf(e) {
+			if tag == "kfw" {
+				return true // the write survived: the finding did not reproduce in this run
+			}
+		}
+	}
+	evid.KnownFinding("C01", fmt.Sprintf("%s: ensemble {%s,%s,%s}, leader %s; a write is acknowledged with the quorum {%s,%s} (%s lags); SwapNode(%s->%s) while %s answers NewTerm late: newTermQuorum counts a majority over ensemble+removed nodes (the removed %s, the lagging %s and the empty %s) but refuses removed nodes as candidates, so %s is installed with an empty log and the acknowledged write is gone",
+		kfSwapBehind, leader, f1, f2, leader, leader, f1, f2, leader, spare, f1, leader, f2, spare, nl))
+	return true
+}
